@@ -4,6 +4,7 @@
 // exit 0: behaviour matches the property; exit 1: property violated natively (CONFIRMED line); other: sanitizer abort
 #include "stir/VectorWithOffset.h"
 #include "stir/Array.h"
+#include "stir/IndexRange3D.h"
 #include <cstdio>
 #include <cstdlib>
 #include <cstring>
@@ -33,6 +34,20 @@ int main(int argc, char** argv)
   std::string op = argv[1];
   int amin = atoi(argv[2]), alen = atoi(argv[3]), bmin = atoi(argv[4]), blen = atoi(argv[5]), x = atoi(argv[6]);
   int eL = argc > 7 ? atoi(argv[7]) : 0, eR = argc > 8 ? atoi(argv[8]) : 0;
+  if (op == "contig")
+    {
+      // Array<3>: after a row got its own storage (resize), the array must not be reported as one contiguous block
+      for (int s = 0; s < 2; ++s)
+        for (int r = 0; r < 2; ++r)
+          {
+            stir::Array<3, float> arr(stir::IndexRange3D(0, 1, 0, 1, 0, 2));
+            if (!arr.is_contiguous()) { std::printf("CONFIRMED freshly constructed Array<3> is reported as not contiguous\n"); return 1; }
+            arr[s][r].resize(1, 3 + x);
+            if (arr.is_contiguous()) { std::printf("CONFIRMED Array<3> 2x2x3 with row [%d][%d] resized (own storage) is still reported as contiguous\n", s, r); return 1; }
+          }
+      std::printf("REPLAY ok\n");
+      return 0;
+    }
   VectorWithOffset<int> a, b; Ref ra, rb;
   mk(a, ra, amin, alen, 7, eL, eR); mk(b, rb, bmin, blen, 1000, 0, 0);
   const Ref ra0 = ra;
